@@ -1,6 +1,7 @@
 // C02 — serializeJson emits exactly the document, on every kind of destination.
 #include <ArduinoJson.h>
 
+#include <iomanip>
 #include <sstream>
 
 #include "../engine/runner.hpp"
@@ -161,6 +162,24 @@ static std::string check_destinations(cs::Ctx& ctx, cs::Src& s, JsonVariantConst
     std::ostringstream os;
     size_t r = PRETTY ? serializeJsonPretty(v, os) : serializeJson(v, os);
     if (os.str() != T || r != T.size()) ctx.fail("ostream", std::string(tag) + ": std::ostream received different bytes or count");
+  }
+  {
+    // a stream carrying formatting state (field width, fill, base, ...) receives the same bytes
+    std::ostringstream os;
+    os.width(2 + (std::streamsize)s.below(6));
+    os.fill(s.coin() ? '*' : '0');
+    os.precision(2);
+    os << std::hex << std::uppercase << std::showbase << std::boolalpha;
+    if (s.coin()) os << std::left;
+    size_t r = PRETTY ? serializeJsonPretty(v, os) : serializeJson(v, os);
+    if (os.str() != T || r != T.size())
+      ctx.fail("ostream", std::string(tag) + ": std::ostream with formatting state (width/fill/hex) received different bytes or count: " + cs::quote_bytes(os.str(), 200));
+    std::ostringstream os2;
+    os2.width(3);
+    os2.fill('#');
+    if (PRETTY) os2 << std::left;
+    os2 << v;  // operator<< writes the compact text
+    if (!PRETTY && os2.str() != T) ctx.fail("ostream", "operator<< on a stream with a field width wrote " + cs::quote_bytes(os2.str(), 200));
   }
   {
     CustomWriter w;
